@@ -42,4 +42,15 @@ theorem PCM_unpack_state_independent (t u : Packet) (buf : Bytes) (ex : Bool) (h
   repeat' split
   all_goals simp_all
 
+/-- non-vacuity: a packet object with the same options that still holds a frame and a detected size decodes the
+    encoding of a one-frame packet (PTP stamps, 32-bit alignment, 3 data bytes) -/
+example :
+    let a : Packet := ⟨0x200000, some 1, some 3, Option.none, Option.none,
+      [⟨.ptp 7 8, false, some 0xFFFFFFFF, [1, 2, 3], 1, Option.none, Option.none⟩]⟩
+    let t : Packet := { (Packet.fresh (some 1) Option.none (some 3)) with
+      minor_frames := [⟨.ptp 1 1, false, some 5, [9, 9, 9], 1, Option.none, Option.none⟩], detected := some 77 }
+    t.ipts_source = a.ipts_source ∧ t.assigned = a.assigned ∧ t.syncword = a.syncword ∧
+    ∃ b, a.pack = .ok b ∧ (Packet.unpack t b false).2 = .ok () ∧ (Packet.unpack t b false).1.minor_frames.length = 1 :=
+  ⟨rfl, rfl, rfl, _, rfl, rfl, rfl⟩
+
 end Acra.Props.C13
